@@ -10,6 +10,7 @@ import (
 	"gonum.org/v1/gonum/graph"
 	"gonum.org/v1/gonum/graph/encoding"
 	"gonum.org/v1/gonum/graph/encoding/dot"
+	"gonum.org/v1/gonum/graph/iterator"
 	"gonum.org/v1/gonum/graph/multi"
 	"gonum.org/v1/gonum/graph/simple"
 
@@ -46,6 +47,11 @@ type dNode struct {
 	ID    dStr   `json:"id"`
 	Attrs dAttrs `json:"attrs"`
 }
+type dEnd struct {
+	Node    int  `json:"node"`
+	Port    dStr `json:"port"`
+	Compass dStr `json:"compass"`
+}
 type dEdge struct {
 	U     int    `json:"u"`
 	V     int    `json:"v"`
@@ -54,11 +60,21 @@ type dEdge struct {
 	FC    dStr   `json:"fc"`
 	TP    dStr   `json:"tp"`
 	TC    dStr   `json:"tc"`
+	// the abstract content of the edge as the specification states it: its two ends (tail, head for a directed
+	// edge; the two members of the set of ends for an undirected one)
+	Abs struct {
+		A dEnd `json:"a"`
+		B dEnd `json:"b"`
+	} `json:"abs"`
 }
 type dotCase struct {
-	K     string `json:"k"`
-	Dir   bool   `json:"dir"`
-	Role  string `json:"role"`
+	K    string `json:"k"`
+	Dir  bool   `json:"dir"`
+	Role string `json:"role"`
+	// representation handed to the encoder: what Reversed* of the edge objects does ("swap" | "self") and whether
+	// the graph is the library's ("lib") or one that returns edge objects as they were stored ("stored")
+	Rev   string `json:"rev"`
+	GK    string `json:"gk"`
 	Nodes struct {
 		List []dNode `json:"list"`
 	} `json:"nodes"`
@@ -84,6 +100,7 @@ type srcEdge struct {
 	attrs  []encoding.Attribute
 	fp, fc string
 	tp, tc string
+	self   bool // the reversal of the edge is the edge itself
 }
 
 func (e *srcEdge) From() graph.Node                 { return e.f }
@@ -92,6 +109,9 @@ func (e *srcEdge) Attributes() []encoding.Attribute { return e.attrs }
 func (e *srcEdge) FromPort() (string, string)       { return e.fp, e.fc }
 func (e *srcEdge) ToPort() (string, string)         { return e.tp, e.tc }
 func (e *srcEdge) ReversedEdge() graph.Edge {
+	if e.self {
+		return e
+	}
 	return &srcEdge{f: e.t, t: e.f, attrs: e.attrs, fp: e.tp, fc: e.tc, tp: e.fp, tc: e.fc}
 }
 
@@ -103,9 +123,58 @@ type srcLine struct {
 
 func (l *srcLine) ID() int64 { return l.id }
 func (l *srcLine) ReversedLine() graph.Line {
+	if l.self {
+		return l
+	}
 	r := l.srcEdge.ReversedEdge().(*srcEdge)
 	return &srcLine{srcEdge: *r, id: l.id}
 }
+
+// storedUndirected is an undirected graph that hands back the edge objects it was given, whatever the order of
+// the end points in the query ("the edge between x and y").
+type storedUndirected struct {
+	*simple.UndirectedGraph
+	stored map[[2]int64]graph.Edge
+}
+
+func pairKey(x, y int64) [2]int64 {
+	if y < x {
+		x, y = y, x
+	}
+	return [2]int64{x, y}
+}
+
+func (g storedUndirected) SetEdge(e graph.Edge) {
+	g.UndirectedGraph.SetEdge(e)
+	g.stored[pairKey(e.From().ID(), e.To().ID())] = e
+}
+func (g storedUndirected) Edge(x, y int64) graph.Edge {
+	if e, ok := g.stored[pairKey(x, y)]; ok {
+		return e
+	}
+	return nil
+}
+func (g storedUndirected) EdgeBetween(x, y int64) graph.Edge { return g.Edge(x, y) }
+
+// storedMultiUndirected is the multigraph counterpart of storedUndirected.
+type storedMultiUndirected struct {
+	*multi.UndirectedGraph
+	stored map[[2]int64][]graph.Line
+}
+
+func (g storedMultiUndirected) SetLine(l graph.Line) {
+	g.UndirectedGraph.SetLine(l)
+	k := pairKey(l.From().ID(), l.To().ID())
+	g.stored[k] = append(g.stored[k], l)
+}
+func (g storedMultiUndirected) Lines(x, y int64) graph.Lines {
+	ls := g.stored[pairKey(x, y)]
+	if len(ls) == 0 {
+		return graph.Empty
+	}
+	return iterator.NewOrderedLines(append([]graph.Line(nil), ls...))
+}
+func (g storedMultiUndirected) LinesBetween(x, y int64) graph.Lines { return g.Lines(x, y) }
 
 // ---- destination side: what dot.Unmarshal builds --------------------------
 
@@ -176,7 +245,9 @@ func (g dstMultiDirected) NewLine(f, t graph.Node) graph.Line {
 
 type dstMultiUndirected struct{ *multi.UndirectedGraph }
 
-func (g dstMultiUndirected) NewNode() graph.Node { return &dstNode{id: g.UndirectedGraph.NewNode().ID()} }
+func (g dstMultiUndirected) NewNode() graph.Node {
+	return &dstNode{id: g.UndirectedGraph.NewNode().ID()}
+}
 func (g dstMultiUndirected) NewLine(f, t graph.Node) graph.Line {
 	return &dstLine{dstEdge: dstEdge{f: f, t: t}, id: g.UndirectedGraph.NewLine(f, t).ID()}
 }
@@ -255,14 +326,23 @@ func replayDot(in *core.Lines, args []string, seed int64, sum *core.Summary) err
 		for _, e := range c.Edges.List {
 			as, txt := mkAttrs(e.Attrs.List)
 			f, t := nodes[e.U-1], nodes[e.V-1]
-			edges = append(edges, &srcEdge{f: f, t: t, attrs: as, fp: e.FP.str(), fc: e.FC.str(), tp: e.TP.str(), tc: e.TC.str()})
-			want.edges = append(want.edges, edgeText(c.Dir, endText(f.dotID, e.FP.str(), e.FC.str()), endText(t.dotID, e.TP.str(), e.TC.str()), txt))
+			edges = append(edges, &srcEdge{f: f, t: t, attrs: as, fp: e.FP.str(), fc: e.FC.str(), tp: e.TP.str(), tc: e.TC.str(), self: c.Rev == "self"})
+			// expected: the abstract content the specification printed for this edge
+			if e.Abs.A.Node < 1 || e.Abs.A.Node > len(nodes) || e.Abs.B.Node < 1 || e.Abs.B.Node > len(nodes) {
+				return fmt.Errorf("line %d: edge without abstract content", in.N)
+			}
+			a, b := e.Abs.A, e.Abs.B
+			want.edges = append(want.edges, edgeText(c.Dir, endText(nodes[a.Node-1].dotID, a.Port.str(), a.Compass.str()),
+				endText(nodes[b.Node-1].dotID, b.Port.str(), b.Compass.str()), txt))
 		}
 
 		// Marshal
 		var data []byte
 		var err error
-		isMulti := c.Role == "multi"
+		isMulti := c.Role == "multi" || c.Role == "ports-multi"
+		if c.GK == "stored" && c.Dir {
+			return fmt.Errorf("line %d: graph kind \"stored\" is for undirected graphs", in.N)
+		}
 		o := core.CallTimeout(20*time.Second, func() {
 			if isMulti {
 				var g interface {
@@ -270,9 +350,12 @@ func replayDot(in *core.Lines, args []string, seed int64, sum *core.Summary) err
 					AddNode(graph.Node)
 					SetLine(graph.Line)
 				}
-				if c.Dir {
+				switch {
+				case c.Dir:
 					g = multi.NewDirectedGraph()
-				} else {
+				case c.GK == "stored":
+					g = storedMultiUndirected{multi.NewUndirectedGraph(), map[[2]int64][]graph.Line{}}
+				default:
 					g = multi.NewUndirectedGraph()
 				}
 				for _, n := range nodes {
@@ -286,6 +369,15 @@ func replayDot(in *core.Lines, args []string, seed int64, sum *core.Summary) err
 			}
 			if c.Dir {
 				g := simple.NewDirectedGraph()
+				for _, n := range nodes {
+					g.AddNode(n)
+				}
+				for _, e := range edges {
+					g.SetEdge(e)
+				}
+				data, err = dot.Marshal(g, "", "", " ")
+			} else if c.GK == "stored" {
+				g := storedUndirected{simple.NewUndirectedGraph(), map[[2]int64]graph.Edge{}}
 				for _, n := range nodes {
 					g.AddNode(n)
 				}
